@@ -6,7 +6,14 @@ triples of state sets, all three algorithms) with real events / auth / resolutio
 recomputes every logged result.
 Power levels of the room model vary the `users` map and `users_default` (creation prefixes 4 / 5 set it to 50 / 100,
 the free kind "pld" changes it; the recorder sets and changes it too): the sender power of the power ordering (R2)
-and the auth rules read the effective level - an entry, or users_default for a user without one."""
+and the auth rules read the effective level - an entry, or users_default for a user without one.
+The power-levels events also vary how they WRITE their levels (event field `spell`: integers, strings, padded strings,
+floats before version 6 - room versions 1-9 read the same level from each; Room.tla picks the spelling of the creation prefix and of
+every later power-levels event from the run's SpellSet, the recorder per room): every reader of a level, the sender
+power of the power ordering included, must read it as the room version does (StateRes!LevelsSpellingFree).
+Depths are ranks: version-1 queries are also resolved with the ranks realised as int64 depths next to MinInt64 /
+MaxInt64 and more than 2^63 apart around a pivot (StateRes!V1DepthRankOnly: the definition reads their order only),
+v2 / v2.1 queries with depths that run against the DAG (never read)."""
 from vlib import room
 
 
@@ -14,8 +21,9 @@ def run(ctx):
     ctx.repro_attempts = 6   # order- and schedule-dependent misbehaviour is retried in fresh processes
     ctx.exhaustive = True
     ctx.notes["rule"] = ("every fork pair of every room reachable in Room.tla within the plans of vlib/room.py "
-                         "(creation prefix incl. users_default absent / 50 / 100 x version x MaxFree free events); distinct = (version, kinds of the "
-                         "events that differ between the state sets, resolved state)")
-    ctx.notes["plans"] = [list(p) for p in room.plans(ctx.tier)]
+                         "(creation prefix incl. users_default absent / 50 / 100 x spelling of the levels x version x MaxFree free events) "
+                         "x realisations of the depth ranks (v1: natural, extreme; v2: natural, against the DAG); distinct = (version, kinds of the "
+                         "events that differ between the state sets, spelling, resolved state)")
+    ctx.notes["plans"] = [list(p) for p in room.plans(ctx.tier, ctx.seed)]
     room.generate(ctx, on_batch=lambda recs: ctx.replay_and_compare("c10", recs))
     room.record_and_validate(ctx, 1500 if ctx.tier == "quick" else 10000)
